@@ -144,7 +144,7 @@ pub fn run_const(r: &Report) {
     r.count("ctor_const_returns", oks);
     r.outcome("const_ctor_panicked", panics);
     r.outcome("const_ctor_returned", oks);
-    r.require(panics > 1_000_000 && oks >= 2_000_000, "panicking constructors both panicked and returned");
+    r.require(panics > 1_000_000 && oks >= 1_000_000, "panicking constructors both panicked and returned");
 }
 
 fn one_new_dt_only(r: &Report, y: i64, m: i64, d: i64) {
